@@ -626,6 +626,85 @@ impl Exec {
         self.record(format!("drop {sid}"), "ok".into());
     }
 
+    /// `setters <item,item,...>`: a chain of builder setter calls on a fresh builder, stopping at the first error.
+    /// Items: `psk:<loc>:<hex32>`, `s:<hex>`, `e:<hex>`, `pro:<hex>`, `rs:<hex>` (`-` = empty).
+    pub fn setters(&mut self, spec: &str) -> Out {
+        let op = format!("setters {spec}");
+        let items: Vec<(String, u8, Vec<u8>)> = spec
+            .split(',')
+            .filter(|x| !x.is_empty() && *x != "-")
+            .map(|it| {
+                let f: Vec<&str> = it.split(':').collect();
+                let unh = |h: &str| if h == "-" { vec![] } else { unhex(h).unwrap_or_default() };
+                if f[0] == "psk" {
+                    ("psk".to_string(), f[1].parse::<u8>().unwrap_or(255), unh(f[2]))
+                } else {
+                    (f[0].to_string(), 0, unh(f.get(1).copied().unwrap_or("-")))
+                }
+            })
+            .collect();
+        let arrs: Vec<[u8; 32]> = items
+            .iter()
+            .map(|(_, _, k)| {
+                let mut a = [0u8; 32];
+                let n = k.len().min(32);
+                a[..n].copy_from_slice(&k[..n]);
+                a
+            })
+            .collect();
+        let r = catch_unwind(AssertUnwindSafe(|| -> Result<(), Error> {
+            let params: NoiseParams = "Noise_NN_25519_ChaChaPoly_SHA256".parse()?;
+            let mut b = Builder::new(params);
+            for (i, (kind, loc, data)) in items.iter().enumerate() {
+                b = match kind.as_str() {
+                    "psk" => b.psk(*loc, &arrs[i])?,
+                    "s" => b.local_private_key(data)?,
+                    "e" => b.fixed_ephemeral_key_for_testing_only(data),
+                    "pro" => b.prologue(data)?,
+                    _ => b.remote_public_key(data)?,
+                };
+            }
+            let _ = b;
+            Ok(())
+        }));
+        let (res, out) = match r {
+            Err(_) => {
+                self.panics += 1;
+                ("panic".to_string(), Out::Panic)
+            },
+            Ok(Err(e)) => (format!("err {}", err_str(&e)), Out::Err(err_str(&e))),
+            Ok(Ok(())) => ("ok".to_string(), Out::Ok(vec![])),
+        };
+        self.record(op, res);
+        out
+    }
+
+    /// `genkey <resolver-expr> <name-hex> rng=<hex>`: `Builder::generate_keypair` with a scripted RNG.
+    pub fn genkey(&mut self, expr: &str, name: &str, rng: &[u8]) -> Out {
+        let op = format!("genkey {expr} {} rng={}", hex(name.as_bytes()), hex(rng));
+        let r = catch_unwind(AssertUnwindSafe(|| -> Result<(Vec<u8>, Vec<u8>), Error> {
+            let params: NoiseParams = name.parse()?;
+            let inner = resolver_from_expr(expr).expect("bad resolver expression");
+            let resolver = SessionResolver { inner, rng_stream: Some(rng.to_vec()), log: new_log() };
+            let kp = Builder::with_resolver(params, Box::new(resolver)).generate_keypair()?;
+            Ok((kp.private, kp.public))
+        }));
+        let (res, out) = match r {
+            Err(_) => {
+                self.panics += 1;
+                ("panic".to_string(), Out::Panic)
+            },
+            Ok(Err(e)) => (format!("err {}", err_str(&e)), Out::Err(err_str(&e))),
+            Ok(Ok((sk, pk))) => {
+                let mut both = sk.clone();
+                both.extend_from_slice(&pk);
+                (format!("ok priv={} pub={}", hex(&sk), hex(&pk)), Out::Ok(both))
+            },
+        };
+        self.record(op, res);
+        out
+    }
+
     /// `resolve <expr> <kind> <choice>`: availability and parameters of what a resolver yields.
     pub fn resolve(&mut self, expr: &str, kind: &str, choice: &str) -> String {
         let op = format!("resolve {expr} {kind} {choice}");
